@@ -29,7 +29,7 @@ def _fresh(env, cls):
 
 
 _EFFECTFUL = re.compile(r'\.(next|next_back|nth|pop\w*|push\w*|insert|remove|replace|swap|write|uset|set|'
-                        r'sort\w*|truncate|retain|drain|extend|clear|select_nth\w*|uget_mut|get_mut|'
+                        r'sort\w*|truncate|retain|drain|extend|clear|select_nth\w*|'
                         r'fetch_\w+|borrow_mut|lock)\(|\.take\(\)')
 
 
